@@ -1130,9 +1130,12 @@ func judgeExchange(e exch, o exchObs) (key, msg string) {
 	if o.panicked {
 		return "client-panic", "the client panicked"
 	}
-	if e.Tamper == "fill" && o.tampered && len(o.after) == 1 && ok && o.after[0] == target && len(o.afterDist) == 0 && len(o.midDist) == 0 {
-		// the client rmdir's only; a directory somebody (with the client's uid, or root) filled stays
-		return "residue-directory-filled-before-cleanup", fmt.Sprintf("another party put a file into %q before the client's cleanup; the directory is still there after the exchange (%s/%s)", target, e.Step1, e.Step2)
+	if e.Tamper == "fill" && o.tampered && ok && len(o.afterDist) == 0 && len(o.midDist) == 0 && (len(o.after) == 0 || (len(o.after) == 1 && o.after[0] == target)) {
+		// Environment interference, outside what the property ranges over: a party that can
+		// write into the client's 0700 directory runs as the client's uid or root. The client
+		// only rmdir's, so the filled directory stays; what is left is compared with the model
+		// (left_behind / C18_left_behind) by the correspondence, not judged here.
+		return "", ""
 	}
 	if len(o.after) > 0 {
 		return "residue-after-exchange", fmt.Sprintf("after the exchange (%s/%s) these paths remain that did not exist before: %q", e.Step1, e.Step2, o.after)
